@@ -104,6 +104,9 @@ def regenerate(modules=None):
                 imp = 'From OV Require Import ' + ' '.join('Gen.' + d for d in deps) + '.\n'
                 text = text.replace('Set Implicit Arguments.\n', 'Set Implicit Arguments.\n' + imp, 1)
             translated.append((mod, text, mans, fails))
+        # the plumbing of the real-ray trace (which step runs when): tools/py2coq_plumb.py -> Gen/Plumbing.v
+        import py2coq_plumb
+        translated.append(('Plumbing',) + tuple(py2coq_plumb.translate(REPO)))
         try:
             os.makedirs(os.path.dirname(cache_fn), exist_ok=True)
             tmp = cache_fn + f'.{os.getpid()}.tmp'
